@@ -2,19 +2,24 @@
 //! database) over the in-memory pipe on a paused clock, against the Lean model
 //! `Dnp3.Model.Outstation`, plus trace monitors for C03 C04 C05 C07 C11 C12 C13 C14.
 //!
-//! ops:  cfg k=v ...                      new outstation (see `Cfg`)
-//!       addbin <idx> <class0-3> | addan <idx> <class0-3>     add a point (class 0 = no events)
-//!       txn <item> ...                   one database transaction; item = bin:<idx>:<0|1>:<flags>:<time|->
-//!                                         | an:<idx>:<int value>:<flags>:<time|->
+//! ops:  cfg k=v ...                      new outstation (see `Cfg`; evmax=n: binary and analog inputs n events each;
+//!                                         evcfg=a,b,c,d,e,f,g,h: per-type maxima in the order bin,dbl,bos,ctr,frz,an,aos,os;
+//!                                         czero=<mask>: class-zero types, bit i = type i)
+//!       addbin <idx> <class0-3> | addan <idx> <class0-3> | add <type> <idx> <class0-3> [<deadband>]
+//!                                         add a point (class 0 = no events; type = bin|dbl|bos|ctr|frz|an|aos|os)
+//!       addmany <type> <start> <count> <class>
+//!       txn <item> ...                   one database transaction; item = <type>:<idx>:<value>:<flags>:<time|->[:<opts>]
+//!                                         value: bin/bos 0|1, dbl 0..3, ctr/frz u32, an/aos integer, os hex octets;
+//!                                         opts = `UpdateOptions` number: 0..2 = Detect / Force / Suppress, +3 = update_static false
 //!       rx <src> <dst> <hex>             one application fragment from link address src to dst
 //!       tick <ms>                        advance the paused clock
 //!       cut                              drop the connection; a new session starts
 //!       appiin <bits>                    need_time=1 local=2 trouble=4 corrupt=8
 //!       ctl <s,s,...>                    statuses the control handler returns, cyclically
 //! out:  cb <...> | tx <dst> <hex> | txlink <ctrl> <dst> <src> | session <reason> | ok
+use crate::eng_db::Ty;
 use crate::util::*;
 use dnp3::app::control::*;
-use dnp3::app::measurement::*;
 use dnp3::app::*;
 use dnp3::link::EndpointAddress;
 use dnp3::outstation::database::*;
@@ -249,6 +254,10 @@ pub struct Cfg {
     pub maxctl: Option<u16>,
     pub discard: bool,
     pub evmax: u16,
+    /// per-type event maxima in the order of `enum Event` (overrides `evmax`)
+    pub evcfg: Option<[u16; 8]>,
+    /// class-zero types, bit i = type i (default: all but octet strings)
+    pub czero: Option<u8>,
     /// C01: decode level 0 = nothing .. 3 = object values (+ transport / link payload, physical data)
     pub decode: u8,
 }
@@ -258,7 +267,7 @@ impl Cfg {
         let mut c = Cfg {
             sol: 2048, unsol: 2048, rx: 2048, unsolicited: false, retries: None, ctimeout: 5000, stimeout: 5000,
             rdelay: 5000, keepalive: None, anymaster: false, broadcast: true, selfaddr: false, maxctl: None,
-            discard: false, evmax: 10, decode: 0,
+            discard: false, evmax: 10, evcfg: None, czero: None, decode: 0,
         };
         for w in ws {
             let (k, v) = w.split_once('=').unwrap();
@@ -277,7 +286,19 @@ impl Cfg {
                 "selfaddr" => c.selfaddr = v == "1",
                 "maxctl" => c.maxctl = if v == "none" { None } else { Some(v.parse().unwrap()) },
                 "discard" => c.discard = v == "1",
-                "evmax" => c.evmax = v.parse().unwrap(),
+                "evmax" => {
+                    c.evmax = v.parse().unwrap();
+                    c.evcfg = None;
+                }
+                "evcfg" => {
+                    let n: Vec<u16> = v.split(',').map(|x| x.parse().unwrap()).collect();
+                    let mut a = [0u16; 8];
+                    for (i, x) in n.iter().take(8).enumerate() {
+                        a[i] = *x;
+                    }
+                    c.evcfg = Some(a);
+                }
+                "czero" => c.czero = Some(v.parse().unwrap()),
                 "decode" => c.decode = v.parse().unwrap(),
                 _ => panic!("bad cfg key {k}"),
             }
@@ -291,6 +312,9 @@ impl Cfg {
         let mut ev = EventBufferConfig::no_events();
         ev.max_binary = self.evmax;
         ev.max_analog = self.evmax;
+        if let Some(a) = self.evcfg {
+            ev = EventBufferConfig::new(a[0], a[1], a[2], a[3], a[4], a[5], a[6], a[7]);
+        }
         let mut c = OutstationConfig::new(
             EndpointAddress::try_new(OUTSTATION).unwrap(),
             EndpointAddress::try_new(MASTER).unwrap(),
@@ -310,6 +334,10 @@ impl Cfg {
         c.unsolicited_retry_delay = Duration::from_millis(self.rdelay);
         c.keep_alive_timeout = self.keepalive.map(Duration::from_millis);
         c.max_controls_per_request = self.maxctl;
+        if let Some(m) = self.czero {
+            let b = |i: u8| m & (1 << i) != 0;
+            c.class_zero = ClassZeroConfig::new(b(0), b(1), b(2), b(3), b(4), b(5), b(6), b(7));
+        }
         c
     }
 }
@@ -495,17 +523,20 @@ impl Station {
         out
     }
 
+    /// `kind`: `addbin` | `addan` | a type code (`bin`, `dbl`, `bos`, `ctr`, `frz`, `an`, `aos`, `os`); the point's
+    /// configuration is `Ty::add_vars` (static g1v2 / event g2v1 for binary inputs, the library defaults otherwise)
     pub fn add_point(&mut self, kind: &str, idx: u16, class: u8) -> bool {
-        let cls = match class {
-            1 => Some(EventClass::Class1),
-            2 => Some(EventClass::Class2),
-            3 => Some(EventClass::Class3),
-            _ => None,
+        self.add_point_db(kind, idx, class, 0)
+    }
+
+    pub fn add_point_db(&mut self, kind: &str, idx: u16, class: u8, deadband: u32) -> bool {
+        let ty = match kind {
+            "addbin" => Ty::Bin,
+            "addan" => Ty::An,
+            k => Ty::from_code(k).expect("point type"),
         };
-        self.handle.transaction(|db| match kind {
-            "addbin" => db.add(idx, cls, BinaryInputConfig { s_var: StaticBinaryInputVariation::Group1Var2, e_var: EventBinaryInputVariation::Group2Var1 }),
-            _ => db.add(idx, cls, AnalogInputConfig { s_var: StaticAnalogInputVariation::Group30Var1, e_var: EventAnalogInputVariation::Group32Var1, deadband: 0.0 }),
-        })
+        let (sv, ev) = ty.add_vars();
+        self.handle.transaction(|db| dnp3::verif_hooks::db_probe::add_typed_db(db, ty.idx() as u8, idx, class, sv, ev, deadband).expect("variation"))
     }
 
     pub fn txn(&mut self, items: &[&str]) -> Vec<String> {
@@ -513,19 +544,14 @@ impl Station {
         self.handle.transaction(|db| {
             for it in items {
                 let p: Vec<&str> = it.split(':').collect();
+                let ty = Ty::from_code(p[0]).expect("point type");
                 let idx: u16 = p[1].parse().unwrap();
-                let flags = Flags::new(p[3].parse::<u8>().unwrap());
-                let time = if p[4] == "-" { None } else { Some(Time::Synchronized(Timestamp::new(p[4].parse().unwrap()))) };
-                let info = match p[0] {
-                    "bin" => db.update2(idx, &BinaryInput::new(p[2] == "1", flags, time.unwrap_or(Time::Synchronized(Timestamp::new(0)))), UpdateOptions::detect_event()),
-                    _ => db.update2(idx, &AnalogInput::new(p[2].parse::<i64>().unwrap() as f64, flags, time.unwrap_or(Time::Synchronized(Timestamp::new(0)))), UpdateOptions::detect_event()),
-                };
-                res.push(match info {
-                    UpdateInfo::NoPoint => "upd nopoint".to_string(),
-                    UpdateInfo::NoEvent => "upd noevent".to_string(),
-                    UpdateInfo::Created(id) => format!("upd created {id}"),
-                    UpdateInfo::Overflow { created, discarded } => format!("upd overflow {created} {discarded}"),
-                });
+                let flags: u8 = p[3].parse().unwrap();
+                let time: u64 = if p[4] == "-" { 0 } else { p[4].parse().unwrap() };
+                let (value, octets): (i64, Vec<u8>) = if ty == Ty::Os { (0, unhex(p[2])) } else { (p[2].parse().unwrap(), vec![]) };
+                let opts: u8 = p.get(5).map(|x| x.parse().unwrap()).unwrap_or(0);
+                let info = dnp3::verif_hooks::db_probe::update_typed_db(db, ty.idx() as u8, idx, value, &octets, flags, time, opts).expect("update");
+                res.push(format!("upd {}", dnp3::verif_hooks::db_probe::info_str(info)));
             }
         });
         res
@@ -563,9 +589,11 @@ pub fn run(ops: &str, out: &mut dyn Write, mon: &mut dyn Write) {
                     _ if st.is_none() => outs.push("bad-op".to_string()),
                     // after a panic of the task nothing more is done (the database mutex is poisoned)
                     _ if st.as_ref().map(|s| s.panicked).unwrap_or(false) => {}
-                    "addbin" | "addan" => {
+                    "addbin" | "addan" | "add" => {
                         let s = st.as_mut().unwrap();
-                        let ok = s.add_point(ws[0], ws[1].parse().unwrap(), ws[2].parse().unwrap());
+                        let (kind, a) = if ws[0] == "add" { (ws[1], 2) } else { (ws[0], 1) };
+                        let deadband: u32 = ws.get(a + 2).map(|x| x.parse().unwrap()).unwrap_or(0);
+                        let ok = s.add_point_db(kind, ws[a].parse().unwrap(), ws[a + 1].parse().unwrap(), deadband);
                         outs.push(format!("add {}", ok as u8));
                         outs.extend(s.quiesce().await);
                     }
@@ -576,7 +604,7 @@ pub fn run(ops: &str, out: &mut dyn Write, mon: &mut dyn Write) {
                         let count: u16 = ws[3].parse().unwrap();
                         let mut ok = 0;
                         for i in 0..count {
-                            if s.add_point(if ws[1] == "bin" { "addbin" } else { "addan" }, start + i, ws[4].parse().unwrap()) {
+                            if s.add_point(ws[1], start + i, ws[4].parse().unwrap()) {
                                 ok += 1;
                             }
                         }
